@@ -238,7 +238,12 @@ def run(ctx):
                 bn = sorted(rnd.sample(sorted(sn), rnd.randint(0, min(2, len(sn))))) if sn else []
                 if fam.sep == " ":
                     bare_o, bare_n = [b for b in bo if rnd.random() < 0.4], [b for b in bn if rnd.random() < 0.4]
-                    old, new = fam.build([fam.sep.join(x) for x in lo], bo, bare_o), fam.build([fam.sep.join(x) for x in ln], bn, bare_n)
+                    # ... or ONLY on its own: a bare `vlan N` whose id is in no batch line is what declares that VLAN
+                    xo = [x for x in (21, 22) if x not in so and rnd.random() < 0.25]
+                    xn = [x for x in (21, 22) if x not in sn and rnd.random() < 0.25]
+                    old = fam.build([fam.sep.join(x) for x in lo], bo + xo, bare_o + xo)
+                    new = fam.build([fam.sep.join(x) for x in ln], bn + xn, bare_n + xn)
+                    lo, ln = lo + [[str(b)] for b in xo], ln + [[str(b)] for b in xn]
                 else:
                     old, new = fam.build([fam.sep.join(x) for x in lo], bo), fam.build([fam.sep.join(x) for x in ln], bn)
             else:
